@@ -76,8 +76,13 @@ def gen_mp_spec(rng, thorough=False):
 	rngc = random.Random(131 * T + 7 * len(fprods) + len(sup))
 	cap_form = rngc.choice(['node', 'node', 'node-dict-first-product', 'first-product-object']) if len(fprods) >= 2 else 'node'
 	cap_first = rngc.randint(2, 6)
+	# one Policy OBJECT filed under two products of the node-level policy dict (its `product` attribute can name only one of them): each product
+	# still orders from ITS OWN position
+	shared_policy = len(fprods) >= 2 and rngc.random() < .3
+	if shared_policy:
+		fprods[1]['policy'] = dict(fprods[0]['policy'])
 	return {'suppliers': sup, 'factory': {'label': 9, 'products': fprods, 'slt': rng.choice([0, 1, 2]), 'olt': rng.choice([0, 0, 1]),
-										   'dis': dis, 'cap': rng.choice([None, rng.randint(3, 12), rng.randint(2, 6)]), 'cap_form': cap_form, 'cap_first': cap_first}, 'T': T, 'shared': msrc}
+										   'dis': dis, 'cap': rng.choice([None, rng.randint(3, 12), rng.randint(2, 6)]), 'cap_form': cap_form, 'cap_first': cap_first, 'shared_policy': shared_policy}, 'T': T, 'shared': msrc}
 
 
 def build_mp(spec):
@@ -151,6 +156,13 @@ def build_mp(spec):
 			po.inventory_policy = Policy(type='rQ', reorder_point=pol['a'], order_quantity=pol['b'], node=f, product=po)
 		if fp['initIL'] is not None:
 			po.initial_inventory_level = fp['initIL']
+	if fac.get('shared_policy'):
+		p0, p1 = fobjs[0], fobjs[1]
+		shared_pol = p0.inventory_policy
+		p0.inventory_policy = None; p1.inventory_policy = None
+		f.inventory_policy = {p0.index: shared_pol, p1.index: shared_pol}
+		for po in fobjs[2:]:
+			f.inventory_policy[po.index] = po.inventory_policy
 	if fac['dis']:
 		f.disruption_process = DisruptionProcess(random_process_type='E', disruption_type=fac['dis']['type'],
 												 disruption_state_list=list(fac['dis']['list']))
@@ -237,6 +249,11 @@ def install():
 			for x in reversed(_rec['ip']):
 				if x['node'] == node.index and x['prod'] == prod and x['period'] == node.network.period:
 					last_ip = x['result']; break
+			try:
+				# the position the policy is documented to observe: that of the product the order is FOR (whatever the Policy object's own `product` says)
+				last_ip = orig_ip(node.state_vars_current, product=prod, exclude_earmarked_units=True)
+			except Exception:
+				pass
 			_rec['oq'].append({'node': node.index, 'period': node.network.period, 'prod': prod, 'oq': res[None][None], 'per_rm': per_rm,
 							   'type': self.type, 'S': self.base_stock_level, 's': self.reorder_point, 'Sup': self.order_up_to_level,
 							   'Q': self.order_quantity, 'cap': (node.get_attribute('order_capacity', product=prod) or None), 'cap_passed': order_capacity,
